@@ -81,7 +81,10 @@ def build(seed, index):
     rng = random.Random('%s/%s/c02' % (seed, index))
     if rng.random() < 0.4:
         return fanout_program(rng)
-    gen = Gen(rng, weights=FANOUT, max_roots=6, max_steps=5)
+    # a few programs start at a date so large that small positive delays are lost in float
+    # rounding (now + delay == now): the kernel then queues a *new* step of the same date
+    gen = Gen(rng, weights=FANOUT, max_roots=6, max_steps=5,
+              start_times=(0, 0, 0, 0, 0, 2.0 ** 53, 1e17))
     return gen.program()
 
 
